@@ -39,7 +39,8 @@ TrInit ==
   /\ nextIno = Len(Table[scn].ents) + 1 /\ fds = [p \in {"w", "r"} |-> 0]
   /\ pc = Table[scn].start /\ exc = "" /\ flag = FALSE /\ k = 0 /\ nf = 0 /\ script = <<>> /\ res = "run" /\ crashed = FALSE
   /\ last = [k |-> 0, op |-> "init", a |-> NoP, b |-> NoP, out |-> "ok"]
-  /\ rpc = "off" /\ rval = "-" /\ rAt = <<0, 0>>
+  /\ rpc = (IF \E i \in 1..Len(Traces[tid].ev) : Traces[tid].ev[i].kind \in {"ropen", "rread", "rstep"} THEN "open" ELSE "off")
+  /\ rval = "-" /\ rAt = <<0, 0>>
 
 Matches(e) == /\ last'.k = e.k /\ last'.op = e.op /\ last'.a = e.a /\ last'.b = e.b /\ last'.out = e.out
 Diag(what) == PrintT(<<"MISMATCH", tid, what, pos, last'>>)
@@ -57,6 +58,16 @@ Consume ==
        \/ /\ e.kind = "crash"
           /\ (IF e.p = "none" THEN Crash ELSE CrashTorn(e.p))
           /\ (IF Matches(e) THEN TRUE ELSE Diag("crash") /\ FALSE)
+       (* the steps of a signac session that reads the target (another process, at this position of the writer / after
+          the crash): open for reading with the recorded outcome, then the read, whose result the session survives iff the
+          content parses. ANY other recorded step of the reader (kind "rstep": a rename, an unlink, a write ...) matches
+          no action of the specification and rejects the trace. *)
+       \/ /\ e.kind = "ropen"
+          /\ ReaderOpen
+          /\ (IF (rpc' = "read") = (e.out = "ok") THEN TRUE ELSE PrintT(<<"MISMATCH", tid, "ropen", pos, rpc', e.out>>) /\ FALSE)
+       \/ /\ e.kind = "rread"
+          /\ ReaderRead
+          /\ (IF (rval' \in {"TORN", "EMPTY"}) = (e.out # "ok") THEN TRUE ELSE PrintT(<<"MISMATCH", tid, "rread", pos, rval', e.out>>) /\ FALSE)
   /\ pos' = pos + 1 /\ UNCHANGED tid
 
 RecDisk == [p \in {TR.disk[i].p : i \in 1..Len(TR.disk)} |-> TR.disk[CHOOSE i \in 1..Len(TR.disk) : TR.disk[i].p = p].v]
